@@ -8,7 +8,7 @@ from __future__ import annotations
 
 import math
 
-from mc import builder, starts
+from mc import builder, canon, fileio, starts
 
 ID = "C06"
 TITLE = "Quaver file and in-memory chart denote the same chart, both directions"
@@ -120,7 +120,7 @@ def ax_objects(kind):
     return f
 
 
-STRINGS = ["a: b", "# x", "- y", "yes", "123", "null", '"q"', "日本語", "two  spaces", ""]
+STRINGS = ["a: b", "# x", "- y", "yes", "123", "null", '"q"', "日本語", "two  spaces", "", "A\u2028B"]  # the last: a Unicode line separator inside a value
 
 
 def ax_text(field, s):
@@ -378,6 +378,9 @@ def check(devs, seq, ctx):
         ctx.check("read.raises", False, site=dict(site, exc=type(e).__name__), case=case, observed=f"{type(e).__name__}: {e}"[:300], expected="a chart")
         return
     ctx.passed("read.raises")
+    if len(lab["devs"]) <= 1:
+        # the file entry points: read_file of a file holding this text, write_file of the chart
+        fileio.check_file_entry_points(ctx, "qua", text, m, canon.canon_map, dict(route="file-entry"), case)
     got = lib_den(m)
     ctx.outcome((tuple(got["hits"]), tuple(got["holds"])))
     for ln in ("hits", "holds", "bpms", "svs"):
